@@ -298,9 +298,10 @@ def scope_inventory(fnode) -> Dict[str, List[str]]:
 
 def shape(fnode) -> dict:
     from . import normalise2 as N2
+    from . import normalise3 as N3
     return {"locals": local_names(fnode), "local_kinds": local_kinds(fnode), "eqs": eq_texts(fnode), "ifs": if_texts(fnode), "scopes": scope_inventory(fnode),
             "guards": N2.guard_forms(fnode), "ifs_noelse": N2.noelse_texts(fnode), "ifexps": N2.ifexp_texts(fnode),
-            "scopes_all": sorted({canon(n) for n in ast.walk(fnode) if isinstance(n, _COMPS)})}
+            "scopes_all": sorted({canon(n) for n in ast.walk(fnode) if isinstance(n, _COMPS)}), "gloads": N3.global_loads(fnode), "params": _params(fnode), "names": N3.all_names(fnode), "fors": N3.for_targets(fnode)}
 
 
 def functions_of(tree):
@@ -464,6 +465,12 @@ class _PushNot(ast.NodeTransformer):
 
     def visit_UnaryOp(self, node):
         self.generic_visit(node)
+        # De Morgan: `not (a or b)` is `not a and not b` when every operand has a compact negation
+        if isinstance(node.op, ast.Not) and isinstance(node.operand, ast.BoolOp) and all(
+                (isinstance(v, ast.Compare) and len(v.ops) == 1 and type(v.ops[0]) in _COMPL) or (isinstance(v, ast.UnaryOp) and isinstance(v.op, ast.Not)) for v in node.operand.values):
+            self.n += 1
+            vals = [_negate(v) for v in node.operand.values]
+            return ast.copy_location(ast.BoolOp(op=ast.And() if isinstance(node.operand.op, ast.Or) else ast.Or(), values=vals), node)
         if isinstance(node.op, ast.Not) and isinstance(node.operand, ast.Compare) and len(node.operand.ops) == 1 and type(node.operand.ops[0]) in _COMPL:
             c = node.operand
             self.n += 1
@@ -471,6 +478,15 @@ class _PushNot(ast.NodeTransformer):
         return node
 
     _OPS = {"gt": ast.Gt, "lt": ast.Lt, "ge": ast.GtE, "le": ast.LtE, "eq": ast.Eq, "ne": ast.NotEq}
+
+    def visit_Compare(self, node):
+        # `x in [a, b]` / `x in {a, b}` with constants is `x in (a, b)` (membership in a literal display)
+        self.generic_visit(node)
+        if len(node.ops) == 1 and isinstance(node.ops[0], (ast.In, ast.NotIn)) and isinstance(node.comparators[0], (ast.List, ast.Set)) and node.comparators[0].elts \
+                and all(isinstance(e, ast.Constant) for e in node.comparators[0].elts):
+            self.n += 1
+            node.comparators[0] = ast.copy_location(ast.Tuple(elts=node.comparators[0].elts, ctx=ast.Load()), node.comparators[0])
+        return node
 
     def visit_ListComp(self, node):
         # `[x for x in X]` is `list(X)`
@@ -581,7 +597,12 @@ def normalise_module(tree, module_name: str) -> int:
     if not ref:
         return pn.n
     n = pn.n
-    if "guards" in next(iter(ref.values()), {}):   # reference produced with the structural inventory
+    if any("guards" in v for v in ref.values()):   # reference produced with the structural inventory
+        try:
+            n += N3.inline_module_constants(tree, ref)
+            n += N3.untuple_records(tree, ref)
+        except Exception:   # pragma: no cover
+            pass
         try:
             n += N2.inline_helpers(tree, ref)
         except Exception:   # pragma: no cover - the front end must never take the analysis down
@@ -594,7 +615,7 @@ def normalise_module(tree, module_name: str) -> int:
         if r:
             if "guards" in r:
                 n += normalise_function(fn, r)
-                for step in (N3.expand_next, N3.split_new_tuple_assigns, N3.dup_tails, N3.split_flagged_branches, N2.merge_branch_assignments, N2.inline_new_locals, N2.inline_new_locals, N2._ifexp_calls, N2.ifexp_tests, N2.split_ifexp_statements, N2.expand_new_comprehensions, N2.contract_known_loops, N2.inline_new_locals, N2.contract_known_ifexp, N2.unguard, N2.guardify):
+                for step in (N3.items_to_keys, N3.unpack_to_index, N3.expand_next, N3.split_new_tuple_assigns, N3.dup_tails, N3.split_flagged_branches, N2.merge_branch_assignments, N2.inline_new_locals, N2.inline_new_locals, N2._ifexp_calls, N2.ifexp_tests, N2.split_ifexp_statements, N2.expand_new_comprehensions, N2.contract_known_loops, N2.inline_new_locals, N2.contract_known_ifexp, N2.unguard, N2.guardify):
                     try:
                         n += step(fn, r)
                     except Exception:   # pragma: no cover
@@ -621,5 +642,6 @@ def build_reference(modules: Dict[str, ast.AST]) -> dict:
         fs = {}
         for q, fn in functions_of(tree):
             fs[q] = shape(fn)
+        fs["<module>"] = {"globals": N3.module_globals(tree)}
         out[name] = fs
     return out
